@@ -254,8 +254,9 @@ pub fn run_check_with_context(opts: &CheckOptions<'_>) -> crate::Result<i32> {
             );
             progress.inc();
 
-            // Check if this result is a failure for fail_fast
-            if fail_fast && result.is_failure() {
+            // Check if this result is a failure for fail_fast (grandfathered failures
+            // do not fail the run, so they must not stop it either)
+            if fail_fast && result.is_new_failure(baseline) {
                 failure_detected.store(true, Ordering::Relaxed);
             }
 
